@@ -25,6 +25,13 @@ Proof. intros. unfold cw_queue_short. reflexivity. Qed.
 Lemma bridge_not_loaded : forall a, cw_not_loaded a = negb (a =? 0).
 Proof. intros. unfold cw_not_loaded. reflexivity. Qed.
 
+(* ExecutionStrategy order: runtime, then batch size, then Resources; equality: all three *)
+Lemma bridge_strat_eq : forall a b, strat_eq a b = (s_bs a =? s_bs b) && (s_rt a =? s_rt b) && res_eq (s_res a) (s_res b).
+Proof. intros. unfold strat_eq, cw_strategy_eq. reflexivity. Qed.
+Lemma bridge_strat_lt : forall a b, strat_lt a b =
+  if s_rt a =? s_rt b then (if s_bs a =? s_bs b then res_lt (s_res a) (s_res b) else s_bs a <? s_bs b) else s_rt a <? s_rt b.
+Proof. intros. unfold strat_lt, cw_strategy_lt. reflexivity. Qed.
+
 (* ------------------------------------------------------------------ fastest strategy *)
 Lemma fold_min_le : forall (l : list strategy) a, fold_left (fun acc x => Z.min acc (s_rt x)) l a <= a.
 Proof. induction l as [|x l IH]; intros a; cbn [fold_left]; [lia|]. specialize (IH (Z.min a (s_rt x))). lia. Qed.
